@@ -141,15 +141,30 @@ def run(ctx: Ctx) -> None:
     for fname, fn in pm.methods.items():
         # props variables: dict.fromkeys(mods.X.keys(), True) (+ .update(...), + props["k"] = ...)
         pkeys: Dict[str, Set[str]] = {}
+        spread_names = {k.value.id for c in walk_local(fn) if isinstance(c, ast.Call) and isinstance(c.func, ast.Name) and c.func.id in dcs for k in c.keywords if k.arg is None and isinstance(k.value, ast.Name)}
         for st in walk_local(fn):
-            if isinstance(st, ast.Assign) and len(st.targets) == 1 and isinstance(st.targets[0], ast.Name) and isinstance(st.value, ast.Call) and norm(st.value.func) == "dict.fromkeys":
-                pkeys.setdefault(st.targets[0].id, set()).update(_mods_keys(st.value.args[0], keyset))
+            # props = <dict built from the modifier dicts>
+            if isinstance(st, (ast.Assign, ast.AnnAssign)) and getattr(st, "value", None) is not None:
+                tgts = st.targets if isinstance(st, ast.Assign) else [st.target]
+                if len(tgts) == 1 and isinstance(tgts[0], ast.Name) and tgts[0].id in spread_names:
+                    pkeys.setdefault(tgts[0].id, set()).update(_mods_keys(st.value, keyset))
+        for st in walk_local(fn):
             if isinstance(st, ast.Expr) and isinstance(st.value, ast.Call) and isinstance(st.value.func, ast.Attribute) and st.value.func.attr == "update" and isinstance(st.value.func.value, ast.Name) and st.value.func.value.id in pkeys:
-                a = st.value.args[0]
-                if isinstance(a, ast.Call) and norm(a.func) == "dict.fromkeys":
-                    pkeys[st.value.func.value.id] |= _mods_keys(a.args[0], keyset)
-            if isinstance(st, ast.Assign) and isinstance(st.targets[0], ast.Subscript) and isinstance(st.targets[0].value, ast.Name) and st.targets[0].value.id in pkeys and isinstance(st.targets[0].slice, ast.Constant):
-                pkeys[st.targets[0].value.id].add(st.targets[0].slice.value)
+                pkeys[st.value.func.value.id] |= _mods_keys(st.value.args[0], keyset)
+            if isinstance(st, ast.Assign) and isinstance(st.targets[0], ast.Subscript) and isinstance(st.targets[0].value, ast.Name) and st.targets[0].value.id in pkeys:
+                k = st.targets[0].slice
+                if isinstance(k, ast.Constant):
+                    pkeys[st.targets[0].value.id].add(k.value)
+                elif isinstance(k, ast.Name):
+                    # for kwd in <iterable over a modifier dict>: props[kwd] = True
+                    loop = mod.parent.get(st)
+                    while loop is not None and not (isinstance(loop, ast.For) and isinstance(loop.target, ast.Name) and loop.target.id == k.id):
+                        loop = mod.parent.get(loop)
+                    if loop is None:
+                        raise AnalysisError(f"cannot fold the key `{k.id}` stored into {st.targets[0].value.id}")
+                    pkeys[st.targets[0].value.id] |= _mods_keys(loop.iter, keyset)
+                else:
+                    raise AnalysisError("key stored into a ** spread dict is not foldable")
         for c in walk_local(fn):
             if isinstance(c, ast.Call) and isinstance(c.func, ast.Name) and c.func.id in dcs:
                 fields = list(dataclass_fields(types, c.func.id))
@@ -165,7 +180,7 @@ def run(ctx: Ctx) -> None:
                                 keys -= keyset["meths"] - set(fields)
                             spread_bad = sorted(x for x in keys if x not in fields and (c.func.id, x) not in ILLFORMED_OK)
                         else:
-                            spread_bad = ["<unfoldable ** spread>"]
+                            raise AnalysisError(f"cannot fold the ** spread `{norm(k.value)}` given to {c.func.id}(...)")
                 ctx.ob("R1.5", f"parser:CxxParser.{fname}|{c.func.id}(...) #{_nth(fn, c)}", not bad and not too_many and not spread_bad,
                        msg=f"{c.func.id} is constructed with keywords {bad or spread_bad} that are not fields of the dataclass (or with too many positional arguments): the constructor raises TypeError for a well-formed declaration, or a specifier is silently unrepresentable",
                        node=c, mod=mod, nontrivial=bool(spread_bad) or any(k.arg is None for k in c.keywords))
@@ -410,10 +425,48 @@ def _nth(fn: ast.AST, call: ast.Call) -> int:
 
 
 def _mods_keys(e: ast.AST, keyset: Dict[str, Set[str]]) -> Set[str]:
-    # mods.both.keys()
-    ch = attr_chain(e.func) if isinstance(e, ast.Call) else None
-    if ch and len(ch) == 3 and ch[2] == "keys" and ch[1] in keyset:
+    """the keys an expression over the modifier dicts can contribute (a dict built from them, or an iterable of their keys)"""
+    ch = attr_chain(e.func) if isinstance(e, ast.Call) else attr_chain(e)
+    # mods.both.keys() / mods.both / list(mods.both) ...
+    if ch and len(ch) == 3 and ch[2] in ("keys", "copy") and ch[1] in keyset and isinstance(e, ast.Call):
         return set(keyset[ch[1]])
+    if ch and len(ch) == 2 and ch[1] in keyset and not isinstance(e, ast.Call):
+        return set(keyset[ch[1]])
+    if isinstance(e, ast.Call):
+        f = norm(e.func)
+        if f == "dict.fromkeys" and e.args:
+            return _mods_keys(e.args[0], keyset)
+        if f in ("list", "tuple", "set", "frozenset", "sorted", "dict", "iter", "reversed") and len(e.args) == 1:
+            return _mods_keys(e.args[0], keyset)
+        if f in ("itertools.chain", "chain"):
+            out: Set[str] = set()
+            for a in e.args:
+                out |= _mods_keys(a, keyset)
+            return out
+    if isinstance(e, (ast.List, ast.Tuple, ast.Set)):
+        out = set()
+        for x in e.elts:
+            if isinstance(x, ast.Starred):
+                out |= _mods_keys(x.value, keyset)
+            elif isinstance(x, ast.Constant) and isinstance(x.value, str):
+                out.add(x.value)
+            else:
+                raise AnalysisError(f"cannot fold the key set `{norm(e)}`")
+        return out
+    if isinstance(e, ast.Dict):
+        out = set()
+        for k, v in zip(e.keys, e.values):
+            if k is None:
+                out |= _mods_keys(v, keyset)
+            elif isinstance(k, ast.Constant) and isinstance(k.value, str):
+                out.add(k.value)
+            else:
+                raise AnalysisError(f"cannot fold the key set `{norm(e)}`")
+        return out
+    if isinstance(e, ast.DictComp) and len(e.generators) == 1 and isinstance(e.generators[0].target, ast.Name) and isinstance(e.key, ast.Name) and e.key.id == e.generators[0].target.id and not e.generators[0].ifs:
+        return _mods_keys(e.generators[0].iter, keyset)
+    if isinstance(e, ast.BinOp) and isinstance(e.op, (ast.BitOr, ast.Add)):
+        return _mods_keys(e.left, keyset) | _mods_keys(e.right, keyset)
     raise AnalysisError(f"cannot fold the key set `{norm(e)}`")
 
 
